@@ -510,6 +510,11 @@ func nativeReplayLoops(root, module, pkg, harness, label, kind, replayPath strin
 	if err != nil {
 		return "overlay-error"
 	}
+	droppedMu.Lock()
+	for f := range droppedOverlayFiles {
+		delete(ov, f)
+	}
+	droppedMu.Unlock()
 	scratch, err := os.MkdirTemp("/dev/shm", "gosym-replay-")
 	if err != nil {
 		scratch, _ = os.MkdirTemp("", "gosym-replay-")
